@@ -743,7 +743,6 @@ func (d *dealer) syncCall(caller *wamp.Session, msg *wamp.Call) {
 			session: caller.ID,
 			request: msg.Request,
 		}
-		d.calls[reqID] = caller
 		invk = &invocation{
 			callID:     reqID,
 			callee:     callee,
@@ -862,6 +861,7 @@ func (d *dealer) syncCall(caller *wamp.Session, msg *wamp.Call) {
 			session: callee.ID,
 			request: invocationID,
 		}
+		d.calls[reqID] = caller
 		d.invocations[invkReqID] = invk
 		d.invocationByCall[reqID] = invkReqID
 	} else {
